@@ -56,6 +56,12 @@ class GlobalPrior(pints.LogPrior):
         return out
 
 
+def TS(cfg):
+    """measurement times of the predictive entries (a time may be listed
+    twice: replicate measurements have their own noise)"""
+    return list(cfg.get('times', [1.0, 2.5]))
+
+
 def flat(res):
     import pandas as pd
     if isinstance(res, pd.DataFrame):
@@ -105,7 +111,7 @@ def entry(B, cfg):
         th = B.vars('psi', 2) + [B.var('s0'), B.var('s1')]
         B.assume(th[2] > 0)
         B.assume(th[3] > 0)
-        return lambda seed: pm.sample(ps.arr(B, th), [1.0, 2.5], n_samples=2,
+        return lambda seed: pm.sample(ps.arr(B, th), TS(cfg), n_samples=2,
                                       seed=seed, return_df=cfg.get('df', True))
     if kind == 'population_predictive':
         units = cfg['units']
@@ -119,7 +125,7 @@ def entry(B, cfg):
             if not ps.is_delta(u['kind']):
                 for j in range(u['n_dim']):
                     B.assume(per_dim[q][0][1][j] > 0)
-        return lambda seed: ppm.sample(ps.arr(B, theta), [1.0, 2.5],
+        return lambda seed: ppm.sample(ps.arr(B, theta), TS(cfg),
                                        n_samples=2, seed=seed)
     if kind == 'posterior_predictive':
         mm = SymMechModel(B, 2, 1)
@@ -130,12 +136,12 @@ def entry(B, cfg):
             if key[0] == pm.get_parameter_names()[-1]:
                 B.assume(v > 0)
         ppm = chi.PosteriorPredictiveModel(pm, ds)
-        return lambda seed: ppm.sample([1.0, 2.5], n_samples=2, seed=seed)
+        return lambda seed: ppm.sample(TS(cfg), n_samples=2, seed=seed)
     if kind == 'prior_predictive':
         mm = SymMechModel(B, 2, 1)
         pm = chi.PredictiveModel(mm, chi.GaussianErrorModel())
         ppm = chi.PriorPredictiveModel(pm, GlobalPrior(3, positive=(2,)))
-        return lambda seed: ppm.sample([1.0, 2.5], n_samples=2, seed=seed)
+        return lambda seed: ppm.sample(TS(cfg), n_samples=2, seed=seed)
     if kind == 'pam':
         models = []
         for k in range(2):
@@ -323,7 +329,14 @@ def jobs(tier):
                     continue
                 out.append(('independent', 'case_independent',
                             dict(e, own_noise_only=True, seed=seed), FACTS))
-        elif e['entry'] == 'pam':
+        if e['entry'] in ('predictive', 'population_predictive',
+                          'posterior_predictive', 'prior_predictive'):
+            # a time listed twice / three times
+            for times_ in ([1.0, 2.5, 2.5], [2.5, 1.0, 2.5, 2.5]):
+                out.append(('independent', 'case_independent',
+                            dict(e, own_noise_only=True, seed=11,
+                                 times=times_), FACTS))
+        if e['entry'] == 'pam':
             # samples drawn from different candidate models (and the model
             # choice itself) use their own part of the stream
             for seed in (11, 0):
